@@ -424,6 +424,18 @@ def gen_vec(rng, tier):
                     if ct in ("int", "str") and (full or rng.random() < 0.3):
                         for vs in all_raisers(m, ct):
                             yield {"fam": "vec", "col": col, "key": ks, "value": vs}
+    # every ORDERED pair of value types written in one assignment (the dtype fold sees them in this order: a None before or after
+    # the promoting value, two different promotions, a compatible value before an incompatible one …), through each key form
+    for ct in COLTYPES:
+        for n in (2, 3):
+            base = {"vals": COLTYPES[ct][:n], "name": "x"}
+            cols = [base] + ([dict(base, dtype="nullable")] if ct in ("int", "float", "str") else [])
+            for col in cols:
+                for ks in ({"k": "slice", "a": 0, "b": 2, "c": None}, {"k": "maskList", "bs": [True, True] + [False] * (n - 2)},
+                           {"k": "idxList", "is": [0, 1]}, {"k": "slice", "a": None, "b": None, "c": -1} if n == 2 else {"k": "idxVec", "is": [2, 0]}):
+                    for x in VALTYPES:
+                        for y in VALTYPES:
+                            yield {"fam": "vec", "col": col, "key": ks, "value": {"v": "list", "xs": [x, y]}}
     # storage shared with a second live vector
     for n in range(0, 4):
         for ks in list(int_keys(n)) + [{"k": "slice", "a": None, "b": None, "c": None}, {"k": "maskList", "bs": [True] * n}]:
